@@ -25,6 +25,11 @@ RULE = ('T: every grammar sentence up to the length bound, leaves labelled '
         'equal decision vectors, and RuleDefault equality <=> equal name and '
         'equal printed form.  case = one rule (set); non-trivial = >=2 '
         'leaves or >=2 rules.')
+RULE += (
+         ' Leaf kinds clo/chi (texts differing only in the case of an'
+         ' attribute name) appear in two extra labelings of every T'
+         ' sentence and in LC: all list-of-lists rules of <= 2 (thorough 3)'
+         ' entries over them.')
 ASSUMPTIONS = ['leaf texts are self-delimiting (no whitespace, no leading "(" '
                'or trailing ")", not wholly quoted) as the property states',
                'http leaves are answered by the stub of C16']
@@ -47,6 +52,12 @@ def leaf_text(i, kind):
         return 'g%d.v:yes' % i
     if kind == 'lit':
         return "'yes':%%(t%d)s" % i
+    if kind == 'clo':
+        # clo / chi: two DIFFERENT checks whose texts differ only in the
+        # case of a credential attribute name (use each at most once a rule)
+        return 'cK.v:yes'
+    if kind == 'chi':
+        return 'ck.v:yes'
     if kind == 'dq':
         # a double-quoted literal that contains the other quote character
         return '"ye\'s":%%(d%d)s' % i
@@ -64,6 +75,8 @@ def realise(kinds, mask):
                 creds['roles'].append('r%d' % i)
         elif k == 'path':
             creds['g%d' % i] = {'v': 'yes' if v else 'no'}
+        elif k in ('clo', 'chi'):
+            creds['cK' if k == 'clo' else 'ck'] = {'v': 'yes' if v else 'no'}
         elif k == 'lit':
             target['t%d' % i] = 'yes' if v else 'no'
         elif k == 'dq':
@@ -90,6 +103,7 @@ def plan(tier, seed):
     for i in range(8):
         jobs.append({'space': 'L', 'shard': i, 'of': 8, 'tier': tier,
                      'weight': 3000})
+    jobs.append({'space': 'LC', 'tier': tier, 'weight': 1500})
     for i in range(16):
         jobs.append({'space': 'R', 'shard': i, 'of': 16, 'tier': tier,
                      'weight': 2000})
@@ -198,6 +212,9 @@ def run_T(cx, job):
         for off in range(len(KINDS)):
             labelings.append(tuple(KINDS[(i + off) % len(KINDS)]
                                    for i in range(k)))
+        if k >= 2:
+            labelings.append(('clo', 'chi') + ('role',) * (k - 2))
+            labelings.append(('role',) * (k - 2) + ('chi', 'clo'))
         if k <= 3:
             for lab in itertools.product(('@', '!', 'role'), repeat=k):
                 if 'role' in lab and ('@' in lab or '!' in lab):
@@ -208,7 +225,8 @@ def run_T(cx, job):
             idx += 1
             if idx % job['of'] != job['shard']:
                 continue
-            kinds = tuple(x if x in KINDS else 'role' for x in lab)
+            kinds = tuple(x if x in KINDS + ('clo', 'chi') else 'role'
+                          for x in lab)
             leafs = [x if x in '@!' else leaf_text(i, x)
                      for i, x in enumerate(lab)]
             text = lang.to_text(tokens, leafs)
@@ -237,6 +255,26 @@ def run_L(cx, job):
             rule = [e if isinstance(e, str) else list(e) for e in shape]
             cx.roundtrip('L', rule, kinds, n >= 2)
     cx.acc.sample('L', rule)
+
+
+def run_LC(cx, job):
+    """List-of-lists rules over leaves that differ only in letter case (the
+    list form hands each leaf to the parser on its own; the printed text
+    holds them side by side)."""
+    labels = [('clo', 0), ('chi', 1), ('role', 2), ('@', 0)]
+    kinds = ('clo', 'chi', 'role')
+
+    def txt(l):
+        return l[0] if l[0] in '@!' else leaf_text(l[1], l[0])
+    ents = [txt(l) for l in labels] + [[]]
+    ents.extend([txt(x) for x in p]
+                for p in itertools.product(labels, repeat=2))
+    nmax = 2 if job['tier'] == 'quick' else 3
+    for n in range(1, nmax + 1):
+        for shape in itertools.product(ents, repeat=n):
+            rule = [e if isinstance(e, str) else list(e) for e in shape]
+            cx.roundtrip('LC', rule, kinds, n >= 2)
+    cx.acc.sample('LC', rule)
 
 
 MENU = ['', [], '@', '!', 'role:r0', 'role:r0 and rule:q1', 'not role:r1',
